@@ -147,20 +147,38 @@ def run(ctx):
             ctx.violation(f"{v['c']}:{v['why'] if v['c'] != 'C16_Panic' else v['why'].split(':')[0]}",
                           f"run {run_id} step {json.dumps(c['op'])}: {v['c']} ({v['why']}) task {v['gid']} / {v['other']}",
                           {"script": runs.get(run_id), "op": c["op"]})
+    # wire level: the same clauses with the REAL Wire::worker_result gate and Io::Fetch -> Task translation
+    import importlib.util
+    spec = importlib.util.spec_from_file_location("wire_common_for_c16", os.path.join(os.path.dirname(__file__), "wire_common.py"))
+    W = importlib.util.module_from_spec(spec)
+    spec.loader.exec_module(W)
+    wcases, wscripts, wwhere, wstats = W.run_wire(ctx, thorough)
+    for c in wcases:
+        for v in c["viol"]:
+            run_id = wwhere.get(c["at"])
+            ctx.violation(f"{v['c']}:{v['why'] if v['c'] != 'C16_Panic' else v['why'].split(':')[0]}",
+                          f"wire-level run {run_id} step {json.dumps(c['op'])}: {v['c']} ({v['why']}) task {v['gid']} / {v['other']}",
+                          {"engine": "c13_wire", "script": wscripts.get(run_id), "op": c["op"]})
     ctx.cov["traces_validated_against_impl"] += len(scripts)
     ctx.cov["evaluations"] += steps
     ctx.cov["distinct_nontrivial"] = len(nontrivial)
     ctx.cov["samples"] += [scripts[len(scripted())], scripts[-1]]
     ctx.cov["exhaustive"] = not sampled
-    ctx.assumptions += ["the harness applies the rule of Wire::worker_result (result forwarded iff a peer with that node id is connected) instead of running the Wire itself",
+    ctx.assumptions += ["service-level runs apply the rule of Wire::worker_result in the harness; the wire-level runs execute the real Wire (peers registered through the verif_established hook, no sockets)",
                         "a reconnect is a disconnect followed by a connect",
                         "the repository's Peer test double drives the same Service code as the runtime"]
-    return ctx.finish(rule=RULE, extra={"fetches_emitted": fetches, "model_behaviours": len(behaviours), "random_runs": nrand})
+    return ctx.finish(rule=RULE, extra={"fetches_emitted": fetches, "model_behaviours": len(behaviours), "random_runs": nrand, "wire_level": wstats})
 
 
 def replay(ctx, path):
-    ctx.build(ENGINE)
     d = json.load(open(path))["replay"]
+    if d.get("engine") == "c13_wire":
+        import importlib.util
+        spec = importlib.util.spec_from_file_location("wire_common_for_c16", os.path.join(os.path.dirname(__file__), "wire_common.py"))
+        W = importlib.util.module_from_spec(spec)
+        spec.loader.exec_module(W)
+        return W.replay(ctx, path)
+    ctx.build(ENGINE)
     sp = os.path.join(ctx.work, "one.ndjson")
     with open(sp, "w") as f:
         f.write(json.dumps(d["script"]) + "\n")
